@@ -187,6 +187,7 @@ type lvCase struct {
 	ID    int      `json:"id"`
 	Kind  string   `json:"kind"`
 	Mode  string   `json:"mode"` // evict cancel kill close eof
+	Prefilled bool `json:"prefilled,omitempty"` // evict: everything is already in memory when the reader first asks
 	Psize int      `json:"psize"`
 	Total int64    `json:"total"`
 	Off   int64    `json:"off"`
@@ -303,6 +304,11 @@ func runLv(c *lvCase) {
 			l.t.Pieces.Expire(0, nil, func(index uint32) { l.handle(peer.TorHave{Index: index, Have: false}) })
 			l.mu.Unlock()
 		}
+		if c.Prefilled {
+			l.mu.Lock()
+			l.fill()
+			l.mu.Unlock()
+		}
 		l.read(c, r, &pos, c.Buf, exp())
 		evict()
 		l.read(c, r, &pos, c.Buf, exp())
@@ -381,6 +387,7 @@ func genLv(r *rand.Rand, id int) *lvCase {
 		c.Seek = r.Int63n(c.Len)
 	}
 	c.Buf = pick(r, 1, 100, 4096, c.Psize, 3*c.Psize)
+	c.Prefilled = c.Mode == "evict" && r.Intn(2) == 0
 	return c
 }
 
